@@ -80,7 +80,7 @@ PROPS = {
     },
     "C07": {
         "level": "proof",
-        "suites": ["hist", "crash"],
+        "suites": ["hist", "crash", "swap"],
         "columns": ["cache"],
         "rule": "histories over the full C01 alphabet (edits, reverts, rule edits incl. invalid rules files, builds, goal builds, cleans, tampered and "
                 "deleted targets, deleted cache entries, deleted ruler directory and parts of it), deterministic and failing commands, serial schedule; "
@@ -265,7 +265,7 @@ PROPS = {
     },
     "C18": {
         "level": "proof",
-        "suites": ["c18_shortcut"],
+        "suites": ["c18_shortcut", "swap"],
         "columns": ["verdict", "files", "cache", "hist", "table"],
         "rule": "220 quick / 3000 thorough generated histories (alphabet of C01, deterministic commands), half under the fine clock and half under the coarse clock (one tick per "
                 "user action or ruler invocation), each run twice — as is, and with the file-state table erased before every build; verdict and workspace after every build "
